@@ -1,1 +1,1 @@
-// (generated at replay time; empty otherwise) concrete-playback tests for the harnesses of persist.rs
+// (generated at replay time; empty otherwise) concrete-playback tests for the harnesses of this module
